@@ -12,6 +12,10 @@ def judge_record(kind, names, specs, vals, line, focus=None):
     out = []
     fields, total = C.layout(names, specs)
     vals = list(vals)
+    if len(vals) > len(fields) and any(v is not None for v in vals[len(fields):]):
+        out.append(('value-dropped', '%s: %d values given, record has formats for %d: %r never reach the line' % (
+            kind, len(vals), len(fields), vals[len(fields):])))
+        vals = vals[:len(fields)]
     if len(vals) < len(fields):
         # the writer is given fewer values than the record has fields (e.g. the last,
         # partly filled line of a list): the record ends with the last value given
